@@ -678,6 +678,57 @@ def _ordinary_cases():
             for how in ("set", "returned", "returned-to-callback", "nested", "nested-callable")]
 
 
+BIG_OPS = ["typeof v", "JSON.stringify(v)", "JSON.stringify([v, {a: v}])", "v + 1", "v - 1", "v * 2", "v / 3", "v % 7", "v ** 2", "-v", "+v", "~v", "!v", "v | 0",
+           "v & 1", "v ^ 1", "v << 1", "v >> 1", "v >>> 0", "v > 1", "v < v", "v >= v", "v == v", "v === v", "v == '1'", "v != null", "v ? 1 : 2", "v && 1", "v || 1",
+           "var w = v; w++; w", "var w = v; --w", "var w = v; w += 1; w", "var w = v; w *= 2; w", "String(v)", "'' + v", "[v].join()", "v.toString()",
+           "v.toString(16)", "v.toString(2).length", "v.toFixed(2)", "v.toPrecision(3)", "v.toExponential(2)", "v.valueOf() === v", "isFinite(v)", "isNaN(v)",
+           "Number(v) === v", "Number.isInteger(v)", "Number.isFinite(v)", "Number.isNaN(v)", "parseInt(v)", "parseFloat(v)", "Math.abs(v)", "Math.floor(v)",
+           "Math.ceil(v)", "Math.round(v)", "Math.trunc(v)", "Math.sign(v)", "Math.sqrt(v)", "Math.cbrt(v)", "Math.log(v)", "Math.log2(v)", "Math.exp(v)",
+           "Math.sin(v)", "Math.atan2(v, v)", "Math.pow(v, 2)", "Math.pow(2, v)", "Math.max(v, 1)", "Math.min(v, 1)", "Math.hypot(v, v)", "Math.fround(v)",
+           "Math.clz32(v)", "Math.imul(v, 3)", "new Array(v)", "[1, 2, 3].slice(v)", "[1, 2, 3].slice(-v)", "[1, 2, 3].indexOf(1, v)", "[1, 2, 3][v]",
+           "'abc'.charAt(v)", "'abc'.slice(v)", "'abc'.substring(0, v)", "'a'.repeat(v)", "'abc'.indexOf('b', v)", "'abc'[v]", "String.fromCharCode(v)",
+           "new Uint8Array([v])[0]", "new Float64Array([v])[0]", "new Int32Array(2).subarray(v).length", "(function () { var t = new Uint8Array(2); t[0] = v; return t[0] })()",
+           "({})[v] = 1", "var o = {}; o[v] = 1; Object.keys(o)[0].length", "[v, 1].sort()[0] === v", "[3, 1].sort(function () { return v }).length",
+           "[v].indexOf(v)", "[v].includes(v)", "JSON.parse(JSON.stringify({a: v})).a", "(5).toFixed(v)", "(5).toString(v)", "new Date === undefined || 1",
+           "switch (v) { case v: 1; break; default: 2 }", "for (var i = 0; i < 3 && i < v; i++) { } i", "v in [1, 2]", "void v", "[1, 2].concat(v).length",
+           "Array(3).join(v).length > 0", "'x'.padEnd === undefined || 'x'.padEnd(v)", "encodeURIComponent(v).length > 0", "(function (a) { return arguments.length + a })(v) !== 0"]
+
+
+def run_bigops(payload):
+    """A host integer (exactly preserved by set / get) used by the script in every numeric position: the evaluation ends with a value or
+    a JSError, never with a host exception, and get() still hands the integer back unchanged afterwards."""
+    from mc.props.common import engine
+    e = engine()
+    e.CLOCK.reset("poll")
+    bad = []
+    value = eval(payload["expr"], {"__builtins__": {"float": float}})
+    for op in BIG_OPS:
+        ctx = e.Context(time_limit=100)
+        ctx.set("v", value)
+        try:
+            ctx.eval(op)
+        except e.microjs.JSError:
+            pass
+        except Exception as ex:  # noqa: BLE001
+            bad.append("%s -> host %s" % (op, type(ex).__name__))
+        try:
+            back = ctx.get("v")
+            if not (back == value or (back != back and value != value)):
+                bad.append("%s -> get('v') changed" % op)
+        except Exception as ex:  # noqa: BLE001
+            bad.append("get after %s -> %s" % (op, type(ex).__name__))
+    return ("ok" if not bad else "; ".join(bad[:5])) + "\x00ok"
+
+
+BIG_EXPRS = (["2 ** 53 + 1", "2 ** 53 + 2", "2 ** 63 - 1", "2 ** 64", "2 ** 64 + 1", "2 ** 70", "10 ** 30 + 1", "2 ** 1023", "2 ** 1024", "10 ** 400", "10 ** 4300",
+              "2 ** 53", "2 ** 53 - 1", "2 ** 31", "2 ** 32", "10 ** 308", "10 ** 309"])
+BIG_EXPRS = BIG_EXPRS + ["-(%s)" % x for x in BIG_EXPRS] + ["0", "-1", "1.5e308", "float('inf')", "float('nan')", "-0.0"]
+
+
+def _bigops_cases():
+    return [("%d operations on the host value %s" % (len(BIG_OPS), x), {"expr": x}) for x in BIG_EXPRS]
+
+
 def _sp(name, runner, fn, rule, bound, batch=100):
     return Space(name, "mc.props.c11:" + runner, fn, oracle="inline", rule=rule, bound=bound, batch=batch, watchdog=60,
                  nontrivial=lambda cid, p, exp: True)
@@ -718,6 +769,11 @@ def spaces(tier, seed, all_strata=False):
             "repeated: set then get, eval(name), freshness" % len(BIG_INTS), "13 x 5"),
         _sp("c11_bigint_callable", "run_callable", _bigint_callable_cases,
             "the same integers returned by an exposed callable (bare, in a list, in a dict) and handed straight back to it", "13 x 3"),
+        _sp("c11_bigint_ops", "run_bigops", _bigops_cases,
+            "the same integers (both signs) and 12 further boundary numbers used in %d numeric positions (every operator, comparison, update, "
+            "conversion, Number / Math function, number formatting, index and count arguments of string / array / typed-array built-ins, "
+            "property keys, JSON): a value or a JSError, never a host exception, and get() returns the integer unchanged" % len(BIG_OPS),
+            "%d values x %d" % (len(BIG_EXPRS), len(BIG_OPS)), batch=2),
         _sp("c11_call_forms", "run_call_forms", _call_form_cases,
             "one exposed callable reached through %d call forms (plain, call, apply, bind with 0/1/2 partial arguments, bind chains, "
             "two bound copies, method, callbacks of built-ins, new, stored and called later, getter, valueOf, comparator, replace "
